@@ -79,7 +79,7 @@ Identical(a, b) ==
 RECURSIVE FirstBad(_, _)
 FirstBad(r, i) ==
   IF i > Len(r.obs) THEN "ok"
-  ELSE LET v == IF On(r, "C18") THEN Identical(r.obs[1], r.obs[i]) ELSE Same(r, r.obs[1], r.obs[i]) IN
+  ELSE LET v == IF On(r, "C18") \/ On(r, "C17") THEN Identical(r.obs[1], r.obs[i]) ELSE Same(r, r.obs[1], r.obs[i]) IN
        IF v = "ok" THEN FirstBad(r, i + 1) ELSE r.clauses[1] \o ": " \o v \o " (" \o r.obs[1].variant \o " vs " \o r.obs[i].variant \o ")"
 
 Verdict(r) == FirstBad(r, 2)
